@@ -425,6 +425,10 @@ def perf_search(binary, budget_s):
                     unit3 = unit + bytes(c[n % len(c)] for n in range(k))
                     inputs.append((unit3 * (240 // len(unit3) + 1))[:240])
     lines = ['rt default all 1 0 ' + hx(d) for d in inputs]
+    # restricted mode sets as well (pruning has to hold whatever the mode set): a sample of the inputs for each set; a refusal
+    # (input not encodable with these modes) is an answer, only a call that does not come back counts
+    for ms in ('Ascii,Base256', 'Ascii,C40', 'Text,Base256', 'Ascii,Text,C40', 'C40,Text,X12,Edifact,Base256'):
+        lines += ['rt default %s 1 0 %s' % (ms, hx(d)) for d in inputs[::9]]
     t0 = time.time()
     for i in range(0, len(lines), 40):
         if time.time() - t0 > budget_s:
